@@ -18,6 +18,7 @@ struct MO
 };
 
 constexpr nterm<MO> list("list");
+constexpr nterm<MO> top("top");            // top(list) has NO functor: the value of `list` is handed on as it is (moved)
 constexpr nterm<std::unique_ptr<int>> item("item");
 // a term whose VALUE is move-only: typed_term with a functor returning MO
 constexpr typed_term num(char_term('1'), [](std::string_view) { return MO(1); });
@@ -25,10 +26,11 @@ constexpr typed_term num(char_term('1'), [](std::string_view) { return MO(1); })
 auto make()
 {
     return parser(
-        list,
+        top,
         terms(num, ','),
-        nterms(list, item),
+        nterms(top, list, item),
         rules(
+            top(list),
             item(num) >= [](const term_value<MO>& t) { return std::make_unique<int>(t.get_value().v); },
             list(item) >= [](std::unique_ptr<int>&& p) { return MO(*p); },
             list(list, ',', item) >>= [](auto&& /*context*/, MO&& l, skip, std::unique_ptr<int>&& p) { return MO(l.v + *p); }
